@@ -152,7 +152,9 @@ inductive Access
   | bodyRead (n : Option Nat)   -- `request.body.read(n)`  (`none`: `read()`)
   | bodyString                  -- `request._get_body_string()`: what `forms` / `json` start from
   | inputRead                   -- `environ['wsgi.input'].read()` by the application itself
-  deriving Repr, DecidableEq
+  | replaceInput (r : Rec)      -- `request['wsgi.input'] = new_stream`
+  | setContentLength (s : Str)  -- `request['CONTENT_LENGTH'] = s`
+  deriving Repr
 
 /-- the bytes the access returns (or the exception it raises) and the request afterwards.  An
 exception may be caught by the caller, who can then go on using the same request. -/
@@ -170,6 +172,12 @@ def Req.access (q : Req) : Access → Except Err Bytes × Req
       (.ok (sk.body.drop pos), { q with cache := some (sk, pos + (sk.body.drop pos).length) })
     | none =>
       (.ok (q.input.read q.input.st.data.length).1, { q with input := (q.input.read q.input.st.data.length).2 })
+  -- `BaseRequest.__setitem__` + `_on_env_changed`: a new `wsgi.input` drops everything derived
+  -- from the old one (`ombott.request.body`, `…body.error`, forms, files, json, …)
+  | .replaceInput r => (.ok [], { q with input := r, cache := none, bodyError := none })
+  -- `_on_env_changed` drops the cached `content_length` (fix proposed in
+  -- `proposed_fixes/c04-content-length-cache-stale.patch`); nothing else depends on the header
+  | .setContentLength s => (.ok [], { q with clHeader := some s })
 
 /-- a handler that catches every exception and carries on: the request after a sequence of
 accesses (the most permissive caller) -/
